@@ -521,6 +521,8 @@ class Run:
         return programs.program_class(self.case['program'], base)
 
     def _construct(self, cls, loop):
+        if self.case.get('recreate_cancelled'):
+            return self._recreated_with_cancelled_future(cls, loop, None)
         if not self.case.get('recreate'):
             return cls(loop=loop)
         # the process under test is one recreated from the checkpoint of a freshly created process (load_instance_state
@@ -531,6 +533,21 @@ class Run:
         finally:
             programs.CURRENT_REC = saved
         return bundle.unbundle(plumpy.LoadSaveContext(loop=loop))
+
+    def _recreated_with_cancelled_future(self, cls, loop, communicator, **kwargs):
+        """The process under test is one recreated from the checkpoint of a process whose future had just been cancelled by
+        somebody who held it (the kill this asks for had not been carried out yet): it is alive, its future is cancelled."""
+        saved, programs.CURRENT_REC = programs.CURRENT_REC, None
+        try:
+            first = cls(loop=loop, **kwargs)
+            first.future().cancel()
+            bundle = plumpy.Bundle(first)
+        finally:
+            programs.CURRENT_REC = saved
+        # (the first instance is abandoned: the kill it had scheduled for itself finds nothing to do with the process under test)
+        first.kill = lambda *a, **k: False
+        ctx = plumpy.LoadSaveContext(loop=loop) if communicator is None else plumpy.LoadSaveContext(loop=loop, communicator=communicator)
+        return bundle.unbundle(ctx)
 
     def _collect_extra(self):
         return {}
